@@ -159,6 +159,45 @@ pub fn drop_placed<T>(x: T, unwinding: bool) {
     }
 }
 
+/// A carrier entry: `cargo` is dropped while the carrier is being closed, i.e. inside the carrier's own emission.
+#[metrics]
+#[derive(Default)]
+pub struct Carrier {
+    n: u64,
+    #[metrics(ignore)]
+    cargo: Mutex<Option<Box<dyn std::any::Any + Send>>>,
+}
+#[derive(Clone, Default)]
+struct NullSink;
+impl<T: Entry> EntrySink<T> for NullSink {
+    fn append(&self, _entry: T) {}
+    fn flush_async(&self) -> FlushWait {
+        FlushWait::ready()
+    }
+}
+/// Drops `x` from inside the destructor of ANOTHER entry (a unit of work that owns a guard of a sub-operation's
+/// entry): the carrier is emitted by its owner's drop (mode 1), by its last flush guard after the owner is gone
+/// (mode 2) or by a force-flush guard while a flush guard is outstanding (mode 3).  A drop is a drop: the history of
+/// the observed entry, and so the model's answer, is the same.
+pub fn drop_nested<T: Send + 'static>(x: T, mode: u8) {
+    let owner = Carrier { n: 1, cargo: Mutex::new(Some(Box::new(x))) }.append_on_drop(NullSink);
+    match mode {
+        1 => drop(owner),
+        2 => {
+            let fg = owner.flush_guard();
+            drop(owner);
+            drop(fg);
+        }
+        _ => {
+            let fg = owner.flush_guard();
+            let ff = owner.force_flush_guard();
+            drop(owner);
+            drop(ff);
+            drop(fg);
+        }
+    }
+}
+
 /// The real objects of one history.
 pub struct World {
     pub owners: Vec<OwnerRef>,
@@ -169,13 +208,15 @@ pub struct World {
     pub applied_muts: Vec<u64>,
     /// every drop of this history happens during an unwind
     pub unwinding: bool,
+    /// every drop of this history happens inside another entry's destructor (0 = no; 1-3 = `drop_nested` mode)
+    pub nested: u8,
 }
 impl World {
     pub fn new() -> World {
         let sink = Sink::default();
         sink.tracker.owners.store(1, SeqCst);
         let owner = E::default().append_on_drop(sink.clone());
-        World { owners: vec![OwnerRef::Direct(owner)], fgs: vec![], ffs: vec![], sink, applied_muts: vec![], unwinding: false }
+        World { owners: vec![OwnerRef::Direct(owner)], fgs: vec![], ffs: vec![], sink, applied_muts: vec![], unwinding: false, nested: 0 }
     }
     /// Applies one action; actions that are not enabled (no such object) are skipped, as in the model.
     pub fn apply(&mut self, op: Op) {
@@ -240,10 +281,12 @@ impl World {
                     match o {
                         // every other time through metrique::instrument::Instrumented::emit ("emit the metrics and
                         // return the value"), which must be the same as dropping the owner
-                        OwnerRef::Direct(o) if k0 % 2 == 1 && !self.unwinding => {
+                        OwnerRef::Direct(o) if k0 % 2 == 1 && !self.unwinding && self.nested == 0 => {
                             let v = metrique::instrument::Instrumented::from_parts(k0, o).emit();
                             assert_eq!(v, k0);
                         }
+                        OwnerRef::Direct(o) if self.nested != 0 => drop_nested(o, self.nested),
+                        OwnerRef::Handle(h) if self.nested != 0 => drop_nested(h, self.nested),
                         o => drop_placed(o, self.unwinding),
                     }
                 }
@@ -253,7 +296,7 @@ impl World {
                     let k = k % self.fgs.len();
                     let g = self.fgs.remove(k);
                     t.fgs.fetch_sub(1, SeqCst);
-                    drop_placed(g, self.unwinding);
+                    if self.nested != 0 { drop_nested(g, self.nested) } else { drop_placed(g, self.unwinding) }
                 }
             }
             Op::DropForce(k) => {
@@ -261,17 +304,18 @@ impl World {
                     let k = k % self.ffs.len();
                     let g = self.ffs.remove(k);
                     t.forced.fetch_add(1, SeqCst);
-                    drop_placed(g, self.unwinding);
+                    if self.nested != 0 { drop_nested(g, self.nested) } else { drop_placed(g, self.unwinding) }
                 }
             }
         }
     }
 }
 
-fn exec_seq(ops: &[Op], unwinding: bool) -> Sx {
+fn exec_seq(ops: &[Op], placement: u64) -> Sx {
     progress();
     let mut w = World::new();
-    w.unwinding = unwinding;
+    w.unwinding = placement == 1;
+    w.nested = if placement >= 2 { (placement - 1) as u8 } else { 0 };
     let mut obs = vec![];
     for &op in ops {
         w.apply(op);
@@ -825,9 +869,10 @@ pub fn exec(case: &Sx) -> (Sx, bool) {
             let ops: Vec<Op> = case.arg(0).list().iter().map(dec_op).collect();
             let guards = ops.iter().any(|o| matches!(o, Op::NewFlush | Op::NewForce));
             let owner_dropped = ops.iter().any(|o| matches!(o, Op::DropOwner(_)));
-            // second argument (the model does not read it): every drop is placed on an unwinding frame
-            let unwinding = case.list().len() > 2 && case.arg(1).num() != 0;
-            (exec_seq(&ops, unwinding), guards && owner_dropped)
+            // second argument (the model does not read it): 1 = every drop is placed on an unwinding frame,
+            // 2-4 = every drop happens inside another entry's destructor (drop_nested modes 1-3)
+            let placement = if case.list().len() > 2 { case.arg(1).num() as u64 } else { 0 };
+            (exec_seq(&ops, placement), guards && owner_dropped)
         }
     }
 }
@@ -1186,6 +1231,15 @@ pub fn run(ctx: &Ctx) {
     for ops in all.iter().filter(|o| o.len() <= if ctx.tier_thorough { 10 } else { 8 }) {
         out.count("histories_with_drops_during_unwind");
         emit(&mut out, sx::tag(0, vec![Sx::L(ops.iter().map(enc_op).collect()), sx::boolean(true)]));
+    }
+    // the same histories with every drop performed inside the destructor of another entry (a carrier that owns the
+    // object), the carrier being emitted by its owner, its last flush guard, or a force-flush guard
+    for (i, ops) in all.iter().filter(|o| o.len() <= if ctx.tier_thorough { 10 } else { 8 }).enumerate() {
+        let modes: &[u64] = if ctx.tier_thorough { &[2, 3, 4] } else { &[2 + (i as u64 % 3)] };
+        for &m in modes {
+            out.count("histories_with_drops_inside_another_entrys_destructor");
+            emit(&mut out, sx::tag(0, vec![Sx::L(ops.iter().map(enc_op).collect()), sx::n(m)]));
+        }
     }
     out.add("exhaustive_histories", all.len() as u64);
     let mut rng = Rng::new(ctx.seed);
